@@ -91,6 +91,18 @@ def evaluate(case):
         if flat[0] != grp[0]:
             diffs.append(diff("run", "raises", short(flat), short(grp)))
         return {"diffs": diffs, "nontrivial": False, "outcome": "exc"}
+    # the same two calls on ONE parser object, in both orders: regrouping is a function of the flat result, not of the call history
+    from simple_ddl_parser import DDLParser
+    for order in ((False, True), (True, False)):
+        try:
+            p = DDLParser(ddl)
+            got = {gb: norm(p.run(output_mode=case["mode"], group_by_type=gb)) for gb in order}
+        except Exception as e:  # noqa
+            diffs.append(diff("same object, group_by_type=%s then %s" % order, "raises", "results", type(e).__name__))
+            continue
+        if got[False] != flat[1] or got[True] != grp[1]:
+            diffs.append(diff("same object, group_by_type=%s then %s" % order, "same-object-regrouping-differs",
+                              short([flat[1], grp[1]], 300), short([got[False], got[True]], 300)))
     flat, g = flat[1], grp[1]
     if not isinstance(g, dict):
         return {"diffs": [diff("grouped result", "not-a-dict", "dict", short(g))], "outcome": "bad"}
